@@ -98,11 +98,16 @@ def run(ctx, rep):
             for e, info in dom.edges.items():
                 if e == (cls, hm, cls, m):
                     holders |= info['holders']
-            key = 'C07.1:self:%s(%s)@%s->%s' % (cls, hm, '+'.join(sorted(holders)), m)
-            rep.ob('C07.1', 'self:%s(%s)->%s' % (cls, hm, m), False, ss[0][2])
-            rep.violation('C07.1', key, ss[0][0],
-                          'a task holding %s(%s) requests %s(%s) on the same device: certain hang; path %s' % (
-                              cls, hm, cls, m, ss[0][2]), {'path': ss[0][2]})
+            # one finding per function in which the second request is made: a new route to the same hang is a new finding
+            by_req = {}
+            for s_ in ss:
+                by_req.setdefault(s_[1], []).append(s_)
+            for req, sl in sorted(by_req.items()):
+                key = 'C07.1:self:%s(%s)@%s->%s@%s' % (cls, hm, '+'.join(sorted(holders)), m, req)
+                rep.ob('C07.1', 'self:%s(%s)->%s@%s' % (cls, hm, m, req), False, sl[0][2])
+                rep.violation('C07.1', key, sl[0][0],
+                              'a task holding %s(%s) requests %s(%s) on the same device in %s: certain hang; path %s' % (
+                                  cls, hm, cls, m, req, sl[0][2]), {'path': sl[0][2]})
 
     # ---------------------------------------------------------------- C07.2
     n_polls = 0
